@@ -17,7 +17,7 @@ RULE = ("(i) every fully specified spec of the C01 universes x every same-graph-
         "G' in {G}, {G:1}[G']; (ii) complete labelled universes (all labelled MolGraphs n<=4 over {C,H}, all labelled reaction "
         "graphs on 3 C atoms, stereo universes) partitioned into isomorphism classes by the brute-force oracle: one hash per "
         "class; (iii) a fixed list of non-empty graphs of all classes hashed in fresh interpreters under several PYTHONHASHSEED "
-        "values: identical output; (iv) every sequence of <=2 (thorough <=3) public mutator calls after 2-4 roots per class on a "
+        "values: identical output; (iv) every sequence of <=2 (thorough <=3, stereo reaction class <=2) public mutator calls after 2-4 roots per class on a "
         "stereo-valid 14-atom skeleton, hash and == evaluated after every call: hash(G) == hash(freshly built twin).  distinct = (spec, variant) pairs + labelled graphs + (graph, seed) pairs")
 ASSUMPTIONS = ["the seed space (2^32) is cut to a list: quick {0,1,2,3,42,4294967295}, thorough 32 seeds + 'random' twice",
                "fully specified parities only", "pairs the library calls equal but the oracle refutes are C02's business"]
